@@ -77,6 +77,7 @@ type c20State struct {
 	w       *c20Writer
 	nextSID uint64
 	maxConn int
+	hostOK  bool // "localhost" resolves here (to loopback addresses we could cover)
 	dialled []uint64   // stream ids of successful dials (for close)
 	conns   []net.Conn // accepted connections of this case
 	self    identity.AgentID
@@ -113,6 +114,35 @@ func (s *c20State) init() {
 					s.acc <- c20Accept{i, c.RemoteAddr().(*net.TCPAddr).Port, c}
 				}
 			}()
+		}
+		// hostname targets: "localhost:<port>".  Every address localhost resolves to must lead to the
+		// same listener, so the live ports are also opened on the other loopback addresses (best effort).
+		if addrs, err := net.LookupHost("localhost"); err == nil && len(addrs) > 0 {
+			s.hostOK = true
+			for _, a := range addrs {
+				ip := net.ParseIP(a)
+				if ip == nil || !ip.IsLoopback() {
+					s.hostOK = false
+				}
+				if a == "127.0.0.1" || !s.hostOK {
+					continue
+				}
+				for i := 0; i < c20Live; i++ {
+					port := s.addrs[i][strings.LastIndex(s.addrs[i], ":")+1:]
+					if l, err := net.Listen("tcp", net.JoinHostPort(a, port)); err == nil {
+						i := i
+						go func() {
+							for {
+								c, err := l.Accept()
+								if err != nil {
+									return
+								}
+								s.acc <- c20Accept{i, c.RemoteAddr().(*net.TCPAddr).Port, c}
+							}
+						}()
+					}
+				}
+			}
 		}
 		for i := range s.self {
 			s.self[i], s.other[i], s.remote[i] = 0x11, 0x22, 0x33
@@ -234,9 +264,14 @@ func init() {
 						cfg.MaxConnections = n
 					default:
 						p := strings.SplitN(tok, ":", 2)
-						t, err := strconv.Atoi(p[1])
+						byName := strings.HasSuffix(p[1], "h") // target written as localhost:<port> instead of 127.0.0.1:<port>
+						t, err := strconv.Atoi(strings.TrimSuffix(p[1], "h"))
 						must(err)
-						cfg.Endpoints = append(cfg.Endpoints, forward.Endpoint{Key: string(unhexTok(p[0])), Target: s.addrs[t]})
+						target := s.addrs[t]
+						if byName && s.hostOK {
+							target = "localhost" + target[strings.LastIndex(target, ":"):]
+						}
+						cfg.Endpoints = append(cfg.Endpoints, forward.Endpoint{Key: string(unhexTok(p[0])), Target: target})
 					}
 				}
 				s.maxConn = cfg.MaxConnections
@@ -299,9 +334,9 @@ func init() {
 		},
 		Gen: func(w *bufio.Writer, seed int64, tier string) {
 			r := newRngMixed(seed)
-			cases := 150
+			cases := 80
 			if tier == "thorough" {
-				cases = 2000
+				cases = 1000
 			}
 			for c := 0; c < cases; c++ {
 				c20GenCase(w, r)
@@ -324,8 +359,16 @@ func init() {
 
 var c20Keys = []string{"web", "db", "ssh", "a", "", "Web", "WEB", "web ", " web", "web\n", "web\x00", "we", "webb", "forward:web", "w\xc3\xa9b", "\xff\xfe", "my-service_01", "web.internal:8080"}
 
+// c20Pct: the key with its first byte percent-encoded.
+func c20Pct(k string) string {
+	if len(k) == 0 {
+		return "%00"
+	}
+	return fmt.Sprintf("%%%02x", k[0]) + k[1:]
+}
+
 func c20Mutate(r *rng, k string) string {
-	switch r.intn(12) {
+	switch r.intn(19) {
 	case 0:
 		return strings.ToUpper(k)
 	case 1:
@@ -356,6 +399,20 @@ func c20Mutate(r *rng, k string) string {
 		return strings.TrimSpace(k)
 	case 10:
 		return k + "/"
+	case 11:
+		return k + "."
+	case 12:
+		return "." + k
+	case 13:
+		return k + "\t"
+	case 14:
+		return c20Pct(k)
+	case 15:
+		return "forward:forward:" + k
+	case 16:
+		return k + ".."
+	case 17:
+		return strings.ToLower(k)
 	default:
 		return string(r.bytes(1 + r.intn(6)))
 	}
@@ -385,7 +442,11 @@ func c20GenCase(w *bufio.Writer, r *rng) {
 		}
 		keys = append(keys, k)
 		targets = append(targets, t)
-		fmt.Fprintf(w, " %s:%d", hexTok([]byte(k)), t)
+		form := ""
+		if r.chance(45) { // hostname target: several endpoints then share one host and differ in the port only
+			form = "h"
+		}
+		fmt.Fprintf(w, " %s:%d%s", hexTok([]byte(k)), t, form)
 	}
 	fmt.Fprintln(w)
 	known := func(k string) (int, bool) {
@@ -406,6 +467,32 @@ func c20GenCase(w *bufio.Writer, r *rng) {
 			return c20Keys[r.intn(len(c20Keys))]
 		default:
 			return string(r.bytes(r.intn(5)))
+		}
+	}
+	if len(keys) > 0 && r.chance(35) {
+		// every configured key in order, in reverse order, and again (state kept by the handler between
+		// opens — e.g. anything cached per host — must not redirect a later open)
+		for rep := 0; rep < 2; rep++ {
+			for i := range keys {
+				fmt.Fprintf(w, "open %s\n", hexTok([]byte(keys[i])))
+			}
+			for i := len(keys) - 1; i >= 0; i-- {
+				fmt.Fprintf(w, "open %s\n", hexTok([]byte(keys[i])))
+			}
+		}
+	}
+	if len(keys) > 0 && r.chance(35) {
+		// systematic near-misses of one configured key through the agent path
+		k := keys[r.intn(len(keys))]
+		if len(k) <= 200 {
+			for _, nm := range []string{k + ".", "." + k, k + " ", k + "\x00", k + "\t", strings.ToUpper(k), strings.ToLower(k), "forward:" + k, k + "..", c20Pct(k), k} {
+				dom := "forward:" + nm
+				wait := 0
+				if _, ok := known(nm); ok {
+					wait = 1
+				}
+				fmt.Fprintf(w, "agent 3 %s %s %d\n", hexTok(append([]byte{byte(len(dom))}, dom...)), r.pickS("none", "self"), wait)
+			}
 		}
 	}
 	nOps := 2 + r.intn(14)
